@@ -807,7 +807,37 @@ impl Callbacks for Cb {
             let uv = mir::UnevaluatedConst::new(did, args);
             let c = Const::Unevaluated(uv, cty);
             let v = cx.constant(did, &c, tcx.def_span(did));
-            consts.push(V::O(vec![("path", s(tcx.def_path_str(did))), ("span", cx.span(tcx.def_span(did))), ("val", v)]));
+            // the other named constants the initializer refers to (e.g. a lookup table built from named constants)
+            let mut refs: Vec<V> = Vec::new();
+            {
+                let cb = tcx.mir_for_ctfe(did);
+                for bbd in cb.basic_blocks.iter() {
+                    for st in bbd.statements.iter() {
+                        if let StatementKind::Assign(bx) = &st.kind {
+                            let mut ops: Vec<&Operand<'_>> = Vec::new();
+                            match &bx.1 {
+                                Rvalue::Use(o, ..) => ops.push(o),
+                                Rvalue::Aggregate(_, os) => {
+                                    for o in os.iter() {
+                                        ops.push(o);
+                                    }
+                                }
+                                _ => {}
+                            }
+                            for o in ops {
+                                if let Operand::Constant(cc) = o {
+                                    if let Const::Unevaluated(u2, _) = cc.const_ {
+                                        if u2.promoted.is_none() && u2.def != did {
+                                            refs.push(s(tcx.def_path_str(u2.def)));
+                                        }
+                                    }
+                                }
+                            }
+                        }
+                    }
+                }
+            }
+            consts.push(V::O(vec![("path", s(tcx.def_path_str(did))), ("span", cx.span(tcx.def_span(did))), ("val", v), ("refs", V::A(refs))]));
         }
         // trait impls of the local crate
         let mut impls = Vec::new();
